@@ -1538,6 +1538,11 @@ def run(ctx):
         if line.startswith('E:'):
             if impl is None:
                 ctx.corr_break('corr:Sheet.convert', 'model rejects, gnpy converts', strip(c), impl='converted', model=line)
+                if line.startswith('E:NetworkTopologyError:'):
+                    # C20_sanity_rejects: a broken rule must give a topology error, never a network
+                    ctx.violation('invalid_workbook_converted:' + line.split(':')[-1],
+                                  f'the workbook breaks rule {line.split(":")[-1]} (proved model) but gnpy converted it '
+                                  f'({len(data["elements"])} elements)', strip(c))
             elif impl != line[2:]:
                 ctx.corr_break('corr:Sheet.convert', 'different rejection', strip(c), impl=f'{impl} ({str(exc)[:120]})', model=line)
             else:
@@ -1546,6 +1551,11 @@ def run(ctx):
             if impl is not None:
                 ctx.corr_break('corr:Sheet.convert', 'model converts, gnpy rejects', strip(c), impl=f'{impl} ({str(exc)[:120]})',
                                model='converted')
+                # validity judged by the proved model (C20_accepted_is_sane / C20_convert_errors: it converts exactly when
+                # every sanity rule holds): a workbook satisfying all rules must be converted
+                ctx.violation('valid_workbook_rejected',
+                              f'every sanity rule holds (the proved model converts the workbook) but gnpy raises '
+                              f'{type(exc).__name__}: {str(exc)[:160]}', strip(c))
                 continue
             d = same(canon_net_model(line), canon_net_impl(data))
             if d:
@@ -1562,11 +1572,20 @@ def run(ctx):
             if impl != line[2:]:
                 ctx.corr_break('corr:Sheet.read_service_sheet', 'different outcome', strip(c),
                                impl=impl or 'converted', model=line)
+                if impl is None and line.startswith('E:ServiceError:'):
+                    ctx.violation('invalid_service_accepted:' + line.split(':')[-1],
+                                  f'the Service sheet must be refused ({line[2:]}, model) but read_service_sheet built '
+                                  f'{len(out["path-request"])} requests', strip(c))
             else:
                 ctx.count('corr_service_errors_agree')
             continue
         if impl is not None:
             ctx.corr_break('corr:Sheet.read_service_sheet', 'model converts, gnpy raises', strip(c), impl=impl, model='converted')
+            # validity judged by the model: known transceiver / mode, spacing given, end points are transceivers of the
+            # network, every STRICT hop can be named -> each row must become one request
+            ctx.violation('valid_service_rejected',
+                          f'the Service sheet satisfies every rule (the model builds {len(json.loads(line))} requests) '
+                          f'but read_service_sheet raises {impl}', strip(c))
             continue
         ms = [canon_req_model(decode_req(m), False) for m in json.loads(line)]
         try:
@@ -1616,6 +1635,9 @@ def run(ctx):
             continue
         if 'exc' in res:
             ctx.corr_break('corr:Sheet.request_element', 'model builds, gnpy raises', {'service_row': s}, impl=res['exc'], model='built')
+            ctx.violation('valid_service_row_rejected',
+                          f'the row names a known transceiver / mode and a spacing (C20_service_spec: the model builds the '
+                          f'request) but Request_element raises {res["exc"]}', {'service_row': s})
             continue
         mm, sync = canon_req_model(decode_req(m), True)
         try:
